@@ -54,3 +54,12 @@ Record lookup := mk_lookup {
   l_table : string;
   l_escaped : bool
 }.
+
+(* A SPELLING-dependent decision in emit/** or lower/** (sorting, comparing, prefix/suffix/case/character tests,
+   splitting of a name outside quote! bodies): the spelling of a user name can influence the STRUCTURE of the
+   emitted program there. [sp_audited]: the decision is one of the hand-audited ones of checks/c13.py
+   (AUDITED_SPELLING, each with the reason why a consistent renaming within its case class cannot change it). *)
+Record spell := mk_spell {
+  sp_id : string;
+  sp_audited : bool
+}.
